@@ -1,1 +1,68 @@
-From GV Require Import ME.Model ME.Monitors.
+From GV Require Import ME.Model ME.Monitors ME.Lists ME.Inv ME.InvC13.
+
+(* C13: every trace of the model, for every history (legal or not), satisfies the monitor. *)
+Theorem C13_holds : forall ids r d s0 outs0 ops,
+  NewMultiEndpoint ids r d = Some (s0, outs0) ->
+  C13_ok d ids (observe s0) (run s0 ops) = true.
+Proof. exact C13_holds_proof. Qed.
+Print Assumptions C13_holds.
+
+(* State-level: Current() always names a mapped endpoint. *)
+Theorem cur_member : forall ids r d s0 outs0 ops,
+  NewMultiEndpoint ids r d = Some (s0, outs0) ->
+  In (cur (run_state s0 ops)) (keys (run_state s0 ops)).
+Proof. exact cur_member_proof. Qed.
+Print Assumptions cur_member.
+
+(* Non-vacuity (a): a concrete history with recovery timers firing, a delayed
+   switch, a SetEndpoints that drops an endpoint and a rejected empty list.
+   The constructor succeeds, the run has 15 events and current moves 1 -> 2 -> 1. *)
+Example c13_history :
+  let ops := [OpAvail 2 true; OpAdvance 5; OpBegin 0; OpEnd 0; OpAvail 1 true; OpAdvance 3;
+              OpBegin 3; OpEnd 3; OpSet [3%N; 1%N]; OpAvail 1 false; OpBegin 7; OpSet [];
+              OpAdvance 5; OpBegin 4; OpEnd 4] in
+  match NewMultiEndpoint [1%N; 2%N; 3%N] 5 3 with
+  | Some (s0, outs0) =>
+      outs0 = [ONewTimer 5; ONewTimer 5; ONewTimer 5] /\
+      map (fun ev => o_cur (ev_obs ev)) (run s0 ops) =
+        [1; 1; 1; 2; 2; 2; 2; 1; 1; 1; 1; 1; 1; 1; 1]%N /\
+      map (fun ev => length (o_tmrs (ev_obs ev))) (run s0 ops) =
+        [3; 3; 3; 3; 4; 4; 4; 4; 4; 5; 5; 5; 5; 5; 5]%nat /\
+      map (fun ev => map oe_st (o_eps (ev_obs ev))) (run s0 ops) =
+        [[2; 1; 2]; [2; 1; 2]; [2; 1; 2]; [0; 1; 2]; [1; 1; 2]; [1; 1; 2]; [1; 1; 2]; [1; 1; 2];
+         [1; 2]; [2; 2]; [2; 2]; [2; 2]; [2; 2]; [2; 2]; [0; 2]]%Z /\
+      C13_ok 3 [1%N; 2%N; 3%N] (observe s0) (run s0 ops) = true
+  | None => False
+  end.
+Proof. vm_compute. repeat split; reflexivity. Qed.
+
+(* Non-vacuity (b): the monitor rejects hand-made bad traces. *)
+(* (the initial observation used below: current = 1, endpoints 1 and 2 unavailable) *)
+(* sanity: the initial observation and a correct reaction are accepted *)
+Example c13_good_trace :
+  C13_ok 0 [1%N; 2%N] (mkObs 1 [mkOep 1 0 0 (-1); mkOep 2 1 0 (-1)] [] 0)
+    [mkEvent (OpAvail 2 true) [] (mkObs 2 [mkOep 1 0 0 (-1); mkOep 2 1 1 (-1)] [] 0)] = true.
+Proof. vm_compute; reflexivity. Qed.
+
+(* current stays on a known-unavailable endpoint although endpoint 2 became available *)
+Example c13_bad_stays_on_unavailable :
+  C13_ok 0 [1%N; 2%N] (mkObs 1 [mkOep 1 0 0 (-1); mkOep 2 1 0 (-1)] [] 0)
+    [mkEvent (OpAvail 2 true) [] (mkObs 1 [mkOep 1 0 0 (-1); mkOep 2 1 1 (-1)] [] 0)] = false.
+Proof. vm_compute; reflexivity. Qed.
+
+(* current names an endpoint that is not in the list *)
+Example c13_bad_not_member :
+  C13_ok 0 [1%N; 2%N] (mkObs 1 [mkOep 1 0 0 (-1); mkOep 2 1 0 (-1)] [] 0)
+    [mkEvent (OpAdvance 1) [] (mkObs 9 [mkOep 1 0 0 (-1); mkOep 2 1 0 (-1)] [] 1)] = false.
+Proof. vm_compute; reflexivity. Qed.
+
+(* an empty endpoint list is accepted silently *)
+Example c13_bad_empty_list_accepted :
+  C13_ok 0 [1%N; 2%N] (mkObs 1 [mkOep 1 0 0 (-1); mkOep 2 1 0 (-1)] [] 0) [mkEvent (OpSet []) [] (mkObs 1 [mkOep 1 0 0 (-1); mkOep 2 1 0 (-1)] [] 0)] = false.
+Proof. vm_compute; reflexivity. Qed.
+
+(* nobody available, yet current moves to another mapped endpoint *)
+Example c13_bad_moves_with_nobody_available :
+  C13_ok 3 [1%N; 2%N] (mkObs 1 [mkOep 1 0 0 (-1); mkOep 2 1 0 (-1)] [] 0)
+    [mkEvent (OpAdvance 1) [] (mkObs 2 [mkOep 1 0 0 (-1); mkOep 2 1 0 (-1)] [] 1)] = false.
+Proof. vm_compute; reflexivity. Qed.
